@@ -98,8 +98,26 @@ func init() {
 		if runBuilderCases(env, true) {
 			return nil
 		}
+		var ra abruptCase
+		if ok, _ := env.ReplayDesc(&ra); ok && ra.Abrupt != "" {
+			c := runAbrupt(ra.Kind, ra.Abrupt)
+			env.Add(c.coq(), c)
+			return nil
+		}
 		if env.Replay == "" {
-			defer func() { env.Header = hsHeader + "Hs.Builder Corr.Builder Corr.C03."; runBuilderCases(env, false) }()
+			defer func() {
+				env.Header = hsHeader + "Hs.Builder Corr.Builder Corr.C03."
+				runBuilderCases(env, false)
+				// a peer that sends one envelope and vanishes at once, on every transport: no session may come of it
+				for _, kind := range []string{"inproc", "tcp", "ws"} {
+					for _, first := range abruptFirsts {
+						c := runAbrupt(kind, first)
+						env.Add(c.coq(), c)
+						env.Count("abrupt:" + kind)
+						env.NonTrivial(kind + "/" + first)
+					}
+				}
+			}()
 		}
 		o := enumOpts{confs: confsByName("plain-only", "none-or-tls", "tls-only", "tls-first", "no-schemes", "gzip-only")[:env.Pick(4, 6)], oracles: serverOracles, alphabet: serverAlphabet, depth: env.Pick(3, 4)}
 		return runServerProp(env, "C03", o, "Non-trivial: the authentication callback was invoked at least once.", func(c *SCase) bool {
